@@ -18,6 +18,7 @@ package c14
 import (
 	"bytes"
 	"fmt"
+	"strings"
 
 	"github.com/0xReLogic/Helios/verifharness/lab"
 )
@@ -148,7 +149,7 @@ func JudgeStubRef(c *StubCase, with *StubLab, reference func() (*lab.RawResponse
 	hasBody := c.Req.Framing != "none"
 	prog := c.Prog
 	got, rec, err := with.Run(&c.Req, &prog)
-	if err != nil && got == nil {
+	if err != nil && (got == nil || strings.HasPrefix(err.Error(), "harness:")) {
 		v.Viol = "harness: " + err.Error()
 		return v
 	}
